@@ -155,7 +155,7 @@ func c04Run(w *W) {
 }
 
 func init() {
-	Register(&Workload{Prop: "C04", Name: "exhaust", MaxSteps: 20000, Run: c04Run})
-	Register(&Workload{Prop: "C04", Name: "stop", Faulty: true, MaxSteps: 20000, Run: c04Run})
+	Register(&Workload{Prop: "C04", Name: "exhaust", MaxSteps: 20000, Cells: []int{pkNumKinds, 9, 3, 3}, Run: c04Run})
+	Register(&Workload{Prop: "C04", Name: "stop", Faulty: true, MaxSteps: 20000, Cells: []int{pkNumKinds, 9, 3, 3, len(c04Modes) - 1}, Run: c04Run})
 	Register(&Workload{Prop: "C04", Name: "stop-clockjump", Faulty: true, MaxSteps: 20000, ClockJump: 30, Run: c04Run})
 }
